@@ -155,7 +155,8 @@ def gen_history(cat, prop, seed, h, tier):
             ops.append({"k": "threads", "n": rng.choice([1, 2, 16])})
         elif r < 0.978:
             ops.append({"k": "restart"})
-        elif tier == "thorough" and ids_all:
+        elif ids_all and (tier == "thorough" or rng.random() < 0.6):
+            # interrupted call (KeyboardInterrupt at the k-th xrspatial line event), then the same call again
             ops.append({"k": "interrupt", "e": rng.choice(ids_all), "at": rng.randint(1, 40)})
         else:
             push_call(rng.choice(ids_all))
